@@ -1076,9 +1076,9 @@ fn verif_c04_attack() {
                 (4, 10, "u.u.u.m0:1.s3:2", 3, "3,4"),
                 (2, 5, "u.m0:0", 1, "1"),
             ];
-            let afields: &[&str] = if thorough { &["Fp32BitPrime", "Fp25519"] } else { &["Fp32BitPrime"] };
+            let afields: &[&str] = &["Fp32BitPrime", "Fp25519"];
             for field in afields {
-                let reps = if thorough { 3 } else { 1 };
+                let reps = if thorough { 4 } else { 2 };
                 for rep in 0..reps {
                     for (n, (rpb, count, prog, k, wires)) in acases.iter().enumerate() {
                         let batches = count.div_ceil(*rpb);
@@ -1101,11 +1101,6 @@ fn verif_c04_attack() {
                         ));
                     }
                 }
-            }
-            if !thorough {
-                // the production field once
-                let inputs = gen_inputs(rng, "Fp25519", "u.u.m0:1", 4, false, true);
-                out.push(format!("c04.adaptive Fp25519 2 4 {} u.u.m0:1 {inputs} 2 2 3 0 5 2", rng.below(1 << 30)));
             }
             // the keys the batches compute under: one per batch, different batches different keys
             for field in ["Fp32BitPrime", "Fp25519"] {
